@@ -5,13 +5,48 @@ ROOT = os.path.dirname(os.path.dirname(os.path.abspath(__file__)))
 
 ALL = [f'C{i:02d}' for i in range(1, 21)]
 
+TB_SEM = 'Trusted base: vlib/ref/sem.py (reference semantics transcribed from the literature / documentation prose, algebraically self-tested) and vlib/ref/syn.py.'
 CHECKS = {
+ 'C01': dict(
+    technique='runtime monitoring: every VALID verdict of the real prover on generated/hostile workloads attacked by a bounded countermodel search in an independent reference semantics; culprit rule located by an online shadow-model invariant over the step history',
+    text='Exploration: thousands of real proofs per logic (all 57) under rotating option combos, build/step drivers and tie-break order seeds; a VALID verdict is refuted iff a re-verified reference countermodel exists within the search bound.',
+    note=TB_SEM + ' Countermodel search is bounded; surviving VALID verdicts are "not refuted within the bound".', design='4/C01'),
+ 'C02': dict(
+    technique='runtime monitoring: the data of every branch.model of every INVALID run is exported into the reference evaluator and every node of the open branch re-evaluated; frame condition, countermodel-hood and the library\'s own is_countermodel_to cross-checked',
+    text='Exploration over the same proof workload with is_build_models=True; each open limit-free branch is one monitored object.',
+    note=TB_SEM, design='4/C02'),
+ 'C03': dict(
+    technique='runtime monitoring: exhaustive small slice + random propositional arguments built without limits, verdict compared with a complete truth-table decision in the reference semantics; termination monitor on the step history',
+    text='Exploration, partly exhaustive (all arguments with <=1 premise and <=1 connective per sentence in all 57 logics in the thorough tier).',
+    note=TB_SEM + ' A loop-free proof longer than the monitoring cap is inconclusive, not a violation.', design='4/C03'),
+ 'C04': dict(
+    technique='runtime monitoring: each compound node shape expanded by the real rule (isolated on a real Tableau), resulting branches compared with the reference semantics over ALL small interpretations; frame rules run on all 512 access relations over 3 worlds',
+    text='Exhaustive exploration of a finite space: 57 logics x every node shape x all value assignments / small domains / small frames.',
+    note=TB_SEM + ' Components are atoms / monadic predications; exactness for arbitrary components follows from compositionality of the reference.', design='4/C04'),
+ 'C05': dict(
+    technique='runtime monitoring: every set of literal constraints appended node by node to a real branch in every order (and world split), closure compared with reference satisfiability, read-off model value checked',
+    text='Exhaustive exploration (thorough tier) of a finite space of literal sets in all 57 logics.',
+    note=TB_SEM, design='4/C05'),
  'C07': dict(
     technique='runtime monitoring: exhaustive table enumeration through three call paths against REF-SEM reference tables',
-    text=('Exhaustive exploration: every cell of every truth-functional table of all 57 logics is produced by the real '
-          'Model.truth_table / truth_function code and compared with an independent reference; finite space, enumerated completely.'),
-    note='Trusted base: vlib/ref/sem.py (reference tables transcribed from the literature / documentation prose, self-tested algebraically).',
-    design='4/C07'),
+    text='Exhaustive exploration: every cell of every truth-functional table of all 57 logics is produced by the real Model.truth_table / truth_function code and compared with an independent reference; finite space, enumerated completely.',
+    note=TB_SEM, design='4/C07'),
+ 'C09': dict(
+    technique='runtime monitoring: the same argument run under all option combos x build/step x tie-break order seeds (hook-controlled hash order) x premise permutations; outcome classes compared, raising configurations reported',
+    text='Exploration of the configuration/schedule space per argument; evidence counts distinct step-history signatures actually observed.',
+    note='Tie-break orders are enumerated via the PYTABLEAUX_VERIF hook; limit-caused outcomes are excluded as the property says.', design='4/C09'),
+ 'C12': dict(
+    technique='runtime monitoring: write/parse round trips and rendering injectivity over generated sentences, compared through an independent tuple AST; own standard-notation renderer as denotation oracle',
+    text='Exploration over seeded random + near-collision families of sentences in every notation/format/dialect/option combination.',
+    note='Trusted base: vlib/ref/syn.py, vlib/gen_syn.py (independent renderer over the parse-table alphabet).', design='4/C12'),
+ 'C13': dict(
+    technique='runtime monitoring: exhaustive short strings + random/mutated/pathological inputs; exception-type monitor, sys.monitoring operation-count budget, shadow fresh-parser comparison, well-formedness walk of results',
+    text='Exploration (exhaustive for strings of length <= 3 over the alphabet plus foreign characters).',
+    note='Non-termination is restated as an operation budget 50(n+1)^2+1000 function entries in parsing.py; wall-clock watchdog firings are inconclusive.', design='4/C13'),
+ 'C18': dict(
+    technique='runtime monitoring: operation sequences on the real containers checked after every operation against a list-without-duplicates model (permitted-outcome oracle) and an icontract class invariant',
+    text='Exploration: exhaustive short operation sequences (modulo hidden-state equivalence beyond depth 2) + random sequences to depth 60 for qset, linqset, Predicates.',
+    note='Trusted base: vlib/ref/seqmodel.py.', design='4/C18'),
 }
 
 def main():
